@@ -3,8 +3,12 @@
     gossip header through the captured verifier, call Head(), answer the
     outstanding range request, release a gated Store.Append), lets the bubble
     run to quiescence after each and records what it then observes.  [sim]
-    replays the same actions on Model/Syncer.v: each action is a few machine
-    steps, followed by running every goroutine until it blocks. *)
+    replays the same actions on Model/Syncer.v ([astep], the machine as of
+    /repo 40dc6a8: an Append is one step): each action is a few machine steps,
+    followed by running every goroutine until it blocks.  (Since 40dc6a8 an
+    Append parked on the drivers' Store gate would hold syncStore's lock and
+    block every other Append: the drivers no longer gate, [DRelL] and the
+    gate-[DRelT] are impossible actions.) *)
 From Coq Require Import List.
 From RecordUpdate Require Import RecordSet.
 From GH Require Import Base.Prelude Model.Verify Model.Ranges Model.Syncer Proofs.RangesP Proofs.SyncerP.
@@ -124,7 +128,7 @@ Definition held (hold : list nat) (c : cfg) (i : nat) : bool := existsb (Nat.eqb
 Fixpoint t_run_h (hold : list nat) (fuel : nat) (i : nat) (c : cfg) : cfg :=
   match fuel with
   | O => c
-  | S f => if t_blocked gate i c || held hold c i then c else t_run_h hold f i (t_step drift tvf i c)
+  | S f => if t_blocked gate i c || held hold c i then c else t_run_h hold f i (t_astep drift tvf i c)
   end.
 
 Fixpoint settle_thr (hold : list nat) (n : nat) (c : cfg) : cfg :=
@@ -135,10 +139,10 @@ Fixpoint settle_thr (hold : list nat) (n : nat) (c : cfg) : cfg :=
 
 Definition settle (hold : list nat) (c : cfg) : cfg :=
   let c1 := settle_thr hold (length (c_thr c)) c in
-  let c2 := l_run big_fuel gate c1 in
+  let c2 := l_arun big_fuel c1 in
   (* a learner that was waiting for incomingMu may proceed once another released it *)
   let c3 := settle_thr hold (length (c_thr c2)) c2 in
-  l_run big_fuel gate c3.
+  l_arun big_fuel c3.
 
 Definition ret_of (c : cfg) (i : nat) : N :=
   match nth_error (c_thr c) i with
@@ -170,12 +174,12 @@ Definition act (hold : list nat) (c : cfg) (a : dact) : option (cfg * N * list n
     Some (c', 0, hold')
   | DAnswer ans =>
     match cur_req c with
-    | Some _ => Some (settle hold (l_step (expand ans c) c), 0, hold)
+    | Some _ => Some (settle hold (l_astep (expand ans c) c), 0, hold)
     | None => None
     end
   | DRelL =>
     match c_loop c with
-    | LApp2 _ _ => Some (settle hold (l_step GErr c), 0, hold)
+    | LApp2 _ _ => Some (settle hold (l_astep GErr c), 0, hold)
     | _ => None
     end
   | DRelT i =>
@@ -184,7 +188,7 @@ Definition act (hold : list nat) (c : cfg) (a : dact) : option (cfg * N * list n
       Some (settle hold' c, 0, hold')
     else
       match nth_error (c_thr c) i with
-      | Some (TRun _ _ _ SL2 _) => Some (settle hold (t_step drift tvf i c), 0, hold)
+      | Some (TRun _ _ _ SL2 _) => Some (settle hold (t_astep drift tvf i c), 0, hold)
       | _ => None
       end
   end.
